@@ -4,6 +4,7 @@ import (
 	"encoding/json"
 	"fmt"
 	"os"
+	"time"
 
 	"verif/internal/explore"
 	"verif/internal/oracle"
@@ -133,4 +134,63 @@ func replaySnapshot(prop string, raw json.RawMessage) int {
 	}
 	fmt.Println("no violation on replay")
 	return 0
+}
+
+// reach: a diagnostic. Replays a path artefact and prints, for the state before and after its last transition, the final
+// (bottom) states that fault-free progress leads to.
+func init() {
+	register("reach", "reach <file>: final states reachable before/after the last transition of a path artefact (diagnostic)", func(args []string) int {
+		if len(args) != 1 {
+			return 2
+		}
+		b, err := os.ReadFile(args[0])
+		if err != nil {
+			fmt.Fprintln(os.Stderr, err)
+			return 2
+		}
+		var f struct {
+			Replay json.RawMessage `json:"replay"`
+		}
+		json.Unmarshal(b, &f)
+		var p explore.PathReplay
+		p.Seed = world.NewState()
+		if err := json.Unmarshal(f.Replay, &p); err != nil {
+			fmt.Fprintln(os.Stderr, err)
+			return 2
+		}
+		w := world.New()
+		w.Lag = p.Lag
+		w.Load(p.Seed)
+		var states []*world.State
+		for _, l := range p.Transitions {
+			states = append(states, w.S.Clone())
+			if plan, isRec := explore.ParseReconcileLabel(l); isRec {
+				w.Reconcile(p.Key, plan)
+			} else if err := world.Apply(w.S, l, p.Lag); err != nil {
+				fmt.Fprintln(os.Stderr, "replay diverged:", err)
+				return 2
+			}
+		}
+		states = append(states, w.S.Clone())
+		for i, name := range []string{"before the last transition", "after the last transition"} {
+			st := states[len(states)-2+i]
+			fmt.Printf("==== %s\n%s", name, st.Describe())
+			rep := explore.NewReport("C09", "model_checking")
+			g := explore.Search(rep, explore.SearchCfg{Prop: "C09", Key: p.Key, Lag: p.Lag, D: 0, Goal: goalC02, World: w, Workers: 1, Deadline: time.Now().Add(2 * time.Minute)}, []explore.Seed{{Label: name, State: st}})
+			g.Analyse()
+			for id, bk := range g.Bottoms {
+				q := g.PathTo(bk)
+				w.Load(st.Clone())
+				for _, l := range q.Transitions {
+					if plan, isRec := explore.ParseReconcileLabel(l); isRec {
+						w.Reconcile(p.Key, plan)
+					} else {
+						world.Apply(w.S, l, p.Lag)
+					}
+				}
+				fmt.Printf("---- final state %d (scc size %d) via %v\n%s", id, g.BottomSize[id], q.Transitions, w.S.Describe())
+			}
+		}
+		return 0
+	})
 }
